@@ -153,7 +153,11 @@ static int d_bcols2(fx_t *F, int v, dv_t *o)
 /* rows / columns of a (T8: b_columns x b_columns) */
 static int d_adim(fx_t *F, int v, dv_t *o)
 {
-    return dims_common(o, 2, 1, X_CTX);
+    /* only meaningful when a is not NULL: never more than X_CTX */
+    int n = dims_common(o, 2, 1, X_CTX);
+    for (int k = 1; k < n; ++k)
+	o[k].cls = X_CTX;
+    return n;
 }
 static int d_mptr(fx_t *F, int v, dv_t *o)
 {
@@ -194,8 +198,9 @@ static int d_fvec_cal(fx_t *F, int v, dv_t *o)	/* for a 3-point object */
 }
 static int d_fvec5(fx_t *F, int v, dv_t *o)
 {
+    /* content matters only for the entries the count covers */
     int n = dvp(o, 0, F->f5, X_BASE, 0, "ascending");
-    n = dvp(o, n, F->fdesc, X_FAIL, 0, "descending");
+    n = dvp(o, n, F->fdesc, X_CTX, 0, "descending");
     n = dvp(o, n, F->fneg, X_CTX, 0, "negative");
     return n;
 }
@@ -209,8 +214,8 @@ static int d_fvec_apply(fx_t *F, int v, dv_t *o)
 {
     int n = dvp(o, 0, F->f5, X_BASE, 0, "in-range");
     n = dvp(o, n, F->fdesc, X_CTX, 0, "descending");
-    n = dvp(o, n, F->flow, X_FAIL, 0, "below-range");
-    n = dvp(o, n, F->fhigh, X_FAIL, 0, "above-range");
+    n = dvp(o, n, F->flow, X_CTX, 0, "below-range");
+    n = dvp(o, n, F->fhigh, X_CTX, 0, "above-range");
     return n;
 }
 /* count for a 5-long user vector of which the first 3 are in range */
